@@ -705,10 +705,10 @@ def cases(rng, tier):
     reg_ = _registry()
     out = list(_corpus()) if tier != 'search' else []
     out.append(dict(stream='cover'))
-    nview = dict(quick=600, thorough=12000, search=3000)[tier]
+    nview = dict(quick=600, thorough=20000, search=3000)[tier]
     for _ in range(nview):
         out.append(_rand_view(rng))
-    ninputs = dict(quick=1, thorough=12, search=4)[tier]
+    ninputs = dict(quick=1, thorough=40, search=4)[tier]
     for name in sorted(reg_):
         e = reg_[name]
         for _ in range(ninputs):
